@@ -54,27 +54,69 @@ def run(ctx: Ctx) -> None:
         rf, rnode = reads[0]
         cfg = pm.cfg(rf)
         n = node_containing(cfg, rnode)
-        cond = n.cond if n is not None else None
-        conj = [norm(v) for v in cond.values] if isinstance(cond, ast.BoolOp) and isinstance(cond.op, ast.And) else []
-        # effect: under the test (and its nested test) the only statements rebind/return an empty list
         iff = n.stmt if n is not None else None
         body_ok = False
         why = []
-        if isinstance(iff, ast.If) and not iff.orelse:
-            inner_tests = [s for s in iff.body if isinstance(s, ast.If)]
-            assigns = [s for s in iff.body if isinstance(s, ast.Assign)]
-            if len(inner_tests) == 1 and not inner_tests[0].orelse:
-                t2 = norm(inner_tests[0].test)
-                eff = inner_tests[0].body
-                eff_ok = len(eff) == 1 and ((isinstance(eff[0], ast.Assign) and isinstance(eff[0].value, ast.List) and not eff[0].value.elts) or (isinstance(eff[0], ast.Return) and isinstance(eff[0].value, ast.List) and not eff[0].value.elts))
-                need = ["isinstance(", ", Type)", "segments) == 1", "'void'"]
-                body_ok = eff_ok and all(k in t2 for k in need) and any("len(" in c and "== 1" in c for c in conj) and all(isinstance(a, ast.Assign) for a in assigns)
-                if not eff_ok:
-                    why.append("the guarded effect is not `<list> = []`")
-                if not all(k in t2 for k in need):
-                    why.append("the inner test no longer checks: a Type node, one name segment, named 'void'")
-            else:
-                why.append("shape of the conversion changed")
+        if n is None or n.kind != "test":
+            why.append("the option is not read in a test")
+        else:
+            # every statement that runs only when the option test holds, with the conjunction of tests that guards it
+            def chain(x, seen=None):
+                seen = seen or set()
+                out = []
+                for d, lab in cfg.control_deps(x):
+                    if d.id in seen or d.stmt is None or isinstance(d.stmt, ast.Assert):
+                        continue
+                    seen.add(d.id)
+                    out.append((d, lab))
+                    if d is not n:
+                        out += chain(d, seen)  # what guards the option test itself is not part of the conversion test
+                return out
+            guarded = []
+            for x in cfg.nodes:
+                if x is n or x.stmt is None:
+                    continue
+                ch = chain(x)
+                if any(d is n and lab == "T" for d, lab in ch):
+                    # keep the option test and the tests nested under it; what guards the option test itself is not part of the conversion
+                    ch = [(d, lab) for d, lab in ch if d is n or any(d2 is n for d2, _ in cfg.control_deps(d))]
+                    guarded.append((x, ch))
+            effects = []
+            for x, ch in guarded:
+                st = x.stmt
+                if x.kind == "test":
+                    continue
+                if x.kind == "stmt" and isinstance(st, ast.Assign) and not any(isinstance(c, ast.Call) and not (isinstance(c.func, ast.Name) and c.func.id in ("len", "isinstance", "getattr")) for c in ast.walk(st.value)) \
+                        and not (isinstance(st.value, ast.List) and not st.value.elts) and all(isinstance(t, ast.Name) for t in st.targets):
+                    continue  # a local computed for the test (p0_type = params[0].type, single_segment = ...)
+                effects.append((x, ch))
+            body_ok = bool(effects)
+            if not effects:
+                why.append("nothing happens under the option test")
+            for x, ch in effects:
+                st = x.stmt
+                empty = (isinstance(st, ast.Assign) and isinstance(st.value, ast.List) and not st.value.elts) or (isinstance(st, ast.Return) and isinstance(st.value, ast.List) and not st.value.elts)
+                if not empty:
+                    body_ok = False
+                    why.append(f"`{short(st, 50)}` runs under the option test: the guarded effect is not `<list> = []`")
+                    continue
+                if any(lab != "T" for d, lab in ch if d.kind == "test" and not isinstance(d.stmt, (ast.While, ast.For))):
+                    body_ok = False
+                    why.append("the list is emptied on the false side of one of its tests")
+                    continue
+                # the guard, with locals that only name parts of it written out
+                texts = []
+                for d, lab in ch:
+                    if d.cond is None:
+                        continue
+                    parts = d.cond.values if isinstance(d.cond, ast.BoolOp) and isinstance(d.cond.op, ast.And) else [d.cond]
+                    texts += [_expand_locals(cfg, d, p_) for p_ in parts]
+                joined = " && ".join(texts)
+                need = {"a Type node": ("isinstance(", ", Type)"), "one name segment": (".segments) == 1",), "named 'void'": ("== 'void'",), "a single parameter": ("len(", ") == 1")}
+                missing = [k for k, frags in need.items() if not all(f in joined for f in frags)]
+                if missing:
+                    body_ok = False
+                    why.append(f"the test guarding `{short(st, 40)}` no longer checks: {', '.join(missing)}")
         ctx.ob("R18.1", f"parser:CxxParser.{rf}|conversion test and effect", body_ok, msg="; ".join(why) or "the option read is not a conjunct of the lone-unnamed-void test", node=iff or pm.fn(rf), mod=mod)
         # applied to every parameter list
         if rf == "_parse_parameters":
@@ -261,3 +303,28 @@ def _format_ok(c: ast.Call) -> str:
     if n != len(c.args) - 1:
         return f"the format {text!r} has {n} conversion(s) for {len(c.args) - 1} value(s)"
     return ""
+
+
+def _expand_locals(cfg, at, e: ast.AST, depth: int = 0) -> str:
+    """text of e with every local that has a single reaching, effect-free definition written out"""
+    from ..cfg import reaching_defs as _rd
+    cache = getattr(cfg, "_rd_cache", None)
+    if cache is None:
+        cache = _rd(cfg, skip_exc=False)
+        cfg._rd_cache = cache  # type: ignore[attr-defined]
+    import copy as _copy
+
+    class T(ast.NodeTransformer):
+        def visit_Name(self, n: ast.Name):
+            if not isinstance(n.ctx, ast.Load) or depth > 3:
+                return n
+            ds = list(cache.get(at.id, {}).get(n.id, ()))
+            if len(ds) != 1:
+                return n
+            dn = cfg.nodes[ds[0]]
+            st = dn.stmt
+            if dn.kind == "stmt" and isinstance(st, ast.Assign) and len(st.targets) == 1 and isinstance(st.targets[0], ast.Name) \
+                    and not any(isinstance(c, ast.Call) and not (isinstance(c.func, ast.Name) and c.func.id in ("len", "isinstance", "getattr")) for c in ast.walk(st.value)):
+                return ast.parse(_expand_locals(cfg, dn, _copy.deepcopy(st.value), depth + 1), mode="eval").body
+            return n
+    return norm(T().visit(_copy.deepcopy(e)))
